@@ -12,13 +12,9 @@ attribute, then the derived containers); `Model/Border.lean` mirrors the border 
 re-indexing.  The thresholds are the ones translated from `features.py` on every run
 (`Generated/C15Thresholds.lean`).
 
-Not proved here (correspondence + oracle only): `border_cycle_correct` — that under `Manifold` with
-sorted rings the walk returns each border loop once as a closed walk along border edges.
-Full statement kept for the record:
-  ∀ faces, Manifold faces → ∀ s ∈ borderVertices, extractBorderCycle S bv s = some (vb, eb) ∧
-    vb.head = s ∧ vb.Nodup ∧ (∀ i, {vb[i], vb[i+1 mod n]} is a border edge with id eb[i]) ∧
-    vb ~ the border loop of s.
-The proved weakening is `walk_closed_lengths` (as many edges as vertices: the walk is closed).
+`border_cycle_correct` (closed simple walk along border edges covering the whole loop, from every boundary
+vertex; all cycles partition the boundary vertices) is proved in `Props/C15Border.lean` (round 2);
+`walk_closed_lengths` below is the hypothesis-free partial (as many edges as vertices).
 -/
 namespace Mouette.Props.C15
 open Mouette.Features Mouette.Border Mouette.Surface
